@@ -173,6 +173,13 @@ def gen_op(rng, st):
     if st.nsteps >= c['steps']:
         return None
     st.nsteps += 1
+    pw = st.__dict__.pop('pending_write', None)
+    if pw is not None:
+        # aliasing only shows when a write follows: some results are written
+        # into right after they were made
+        x = st.slots.get(pw)
+        if x is not None and x.life == 'open' and x.writable and x.kind not in ('saved', 'view'):
+            return _gen_write(rng, st, x)
     # handles returned by save() are raw netCDF4 datasets opened for writing:
     # they take part in the lifecycle schedule but are not receivers
     live = [s for s in st.slots.values() if s.life == 'open' and s.kind not in ('saved', 'view')]
@@ -220,7 +227,10 @@ def gen_op(rng, st):
             s = rng.choice(cands)
             return _gen_write(rng, st, s)
     if name in XFORMS:
-        return _gen_xform(rng, st, s, name, live)
+        op = _gen_xform(rng, st, s, name, live)
+        if op.get('op') == 'xform' and 'sid' in op and rng.random() < 0.3:
+            st.pending_write = op['sid']
+        return op
     return _gen_query(rng, st, s, name)
 
 
@@ -355,11 +365,18 @@ def _gen_xform(rng, st, s, name, live):
             form = rng.choice(['N = {a} * 2', 'N = {a} + {b}', 'N = {a}',
                                'N = {a}[:]', 'N = {a}[...]', 'N = np.abs({a}) + 1',
                                'N = {a} - {b}; M = {a}', 'N = {a}.copy()',
-                               '{a} = {a} * 0'])
+                               '{a} = {a} * 0',
+                               # variables reached through the namespace's file
+                               # objects (the only way to name e.g. IJ-AVG-$_NOx)
+                               "N = self.variables['{a}']",
+                               "N = self.variables['{a}'][:]; M = {b} + 0",
+                               "M = {b} * 1; N = outf.variables['{a}']",
+                               "N = self.variables['{a}'][...]; M = {b}"])
             op['expr'] = form.format(a=a, b=b)
         else:
             op['expr'] = 'N = 1'
-        op['copyall'] = rng.random() < 0.4
+        op['copyall'] = rng.random() < 0.4 or op['expr'].startswith('N = self.variables') and \
+            ';' not in op['expr']
     elif name == 'binop':
         rel = [x for x in live if _root(st, x) == _root(st, s)]
         op['other'] = rng.choice(rel).id
